@@ -95,3 +95,8 @@ package rest
 //@   ensures forall(i.(int), implies(0 <= i && i < len(r.routes), r.routes[i].Path == path.Join(group, old(r.routes)[i].Path) && r.routes[i].Method == old(r.routes)[i].Method && r.routes[i].Handler == old(r.routes)[i].Handler))
 //@   modifies r.routes
 //@   allocates
+
+// AddRoute is AddRoutes for one route WITH the caller's route options (per-route timeout, jwt, signature, prefix, ...)
+//@ func (s *Server) AddRoute
+//@   property C04 C18 C09
+//@   call AddRoutes#0: assert sameSlice(arg_opts, opts) && arg_recv == s && len(arg_rs) == 1 && arg_rs[0].Path == r.Path && arg_rs[0].Method == r.Method && arg_rs[0].Handler == r.Handler
